@@ -5,14 +5,7 @@
 #define STEP_CONTINUE 0     /* `continue;` or falling off the end of the body */
 #define STEP_BREAK 1        /* `break;` */
 
-/* message size bound: taken from the call sites (UDP datagram / 16-bit TCP length prefix: <= 65535), proved for 2^32 */
-#define DN_MAX_MSG ((size_t)1 << 32)
-
-/* RFC 1035 2.3.4 / 3.1 limits (NOT the library's constants): label <= 63 octets, name <= 255 octets on the wire.
- * The decoder's totalLength counts label octets + length octets without the terminating zero: wire = totalLength + 1. */
-#define RFC_MAX_LABEL 63
-#define RFC_MAX_TOTAL 254            /* largest totalLength of a name of 255 wire octets */
-#define RFC_MAX_TEXT 253             /* its dotted text form */
+#include "iora_dns_contracts.h"    /* DN_MAX_MSG, RFC_MAX_*, U16BE/U32BE, the decodeName contract */
 
 /* Loop invariant of the decode loop as a by-value macro (no calls, no `&`), shared by
  *  - the loop contract of the whole-function proof (DFCC), and
@@ -27,7 +20,7 @@
   && (!(jmp) ==> ((orig) <= (off) && (off) - (orig) == (tl))) \
   && ((jmp) ==> ((orig) >= 2 && ((d)[(orig) - 2] & 0xC0) == 0xC0)) \
   && ((!(jmp) && GK < (nn)) ==> (((ngk) & 0xFF) == (d)[(orig) + 1 + GK] \
-                                  || (((ngk) & 0xFF) == 46 && (d)[(orig) + 1 + GK] >= 1 && (d)[(orig) + 1 + GK] <= RFC_MAX_LABEL))) )
+                                  || (((ngk) & 0xFF) == 46))) )
 
 /* loop 1 of decodeNameWithLoopDetection. Termination (D7): every followed pointer adds a new element to a set of 14-bit
  * values (at most 16384 of them), every label moves the offset towards the end of the message. */
